@@ -45,3 +45,11 @@ def fortran_reshape(data):
 def seeded_outside(random_state):  # noqa: U100
     rng = np.random.RandomState(42)
     return rng.uniform(0, 1, 3)
+
+_TABLE = {"linear": (int, {"rescale": False})}
+
+
+def mutates_held_object(method, extra):
+    cls, kwargs = _TABLE[method]
+    kwargs.update(extra)
+    return cls, kwargs
